@@ -73,6 +73,29 @@ def generate(ctx: Ctx, base: str, consts: dict[str, str], modules: list[str] | N
     return cases, json.loads(cases.read_text())
 
 
+def judge_chunked(ctx: Ctx, base: str, consts: dict[str, str], cases: list, results: list, chunk: int = 2500, workers: int = 4,
+                  env: dict[str, str] | None = None, **kw) -> dict[int, set[str]]:
+    """`judge` for per-case post-conditions over large case lists: chunks judged by concurrent TLC runs, indices mapped back."""
+    from concurrent.futures import ThreadPoolExecutor
+
+    def one(k: int) -> dict[int, set[str]]:
+        cf, rf = ctx.scratch / f"{base}_chunk{k}_cases.json", ctx.scratch / f"{base}_chunk{k}_results.json"
+        cf.write_text(json.dumps(cases[k:k + chunk]))
+        rf.write_text(json.dumps(results[k:k + chunk]))
+        e = dict(env or {})
+        e = {key: (str(cf) if val == "@cases" else val) for key, val in e.items()}
+        part = judge(ctx, base, consts, cf, rf, tag=f"judge_c{k}", env=e, **kw)
+        return {k + i: names for i, names in part.items()}
+
+    bad: dict[int, set[str]] = {}
+    with ThreadPoolExecutor(max_workers=workers) as tp:
+        for part in tp.map(one, range(0, len(cases), chunk)):
+            bad.update(part)
+    if getattr(ctx, "guard_tripped", None) and not bad:
+        raise MachineryError(f"{ctx.guard_tripped}; no violation among the executed cases, the rest was not examined")
+    return bad
+
+
 def _rss_gb() -> float:
     try:
         return int(open("/proc/self/statm").read().split()[1]) * os.sysconf("SC_PAGE_SIZE") / 2**30
